@@ -298,7 +298,8 @@ func (x *Exec) callWrites(cc *ssa.CallCommon, seen map[*ssa.Function]bool) (map[
 			out["bank.bal"], out["bank.supply"] = true, true
 		case iface == "BankKeeper" && cc.Method.Name() == "SetDenomMetaData":
 			out["bank.meta"] = true
-		case iface == "BankKeeper", iface == "Codec", iface == "Logger", iface == "PubKey", iface == "GasMeter", iface == "ValidatorI", iface == "FeeTx", iface == "Tx":
+		case iface == "BankKeeper", iface == "Codec", iface == "Logger", iface == "PubKey", iface == "GasMeter", iface == "ValidatorI", iface == "FeeTx", iface == "Tx",
+			iface == "HasValidateBasic", iface == "Msg", iface == "AnyUnpacker":
 		case iface == "AccountKeeper" && (cc.Method.Name() == "SetAccount" || cc.Method.Name() == "NewAccount"):
 			out["auth.acc"] = true
 		case iface == "AccountKeeper", iface == "error":
